@@ -509,7 +509,7 @@ class Case:
 
     def clause2(self, o):
         ctx = self.ctx
-        cells = self.pick_cells(o, CELL_CAP[ctx.tier])
+        cells = self.pick_cells(o, 2000 if getattr(ctx, "shrinking", False) else CELL_CAP[ctx.tier])
         root = self.root
         nev = ctx.pick(1, 2)
         for i, cell in enumerate(cells):
@@ -539,7 +539,10 @@ class Case:
         if not cells:
             return
         rng = ctx.subrng("b1", json.dumps(self.recipe, sort_keys=True), self.size)
-        picks = rng.sample(cells, min(len(cells), ctx.pick(4, 8)))
+        if getattr(ctx, "shrinking", False):
+            picks = cells[:150]  # while shrinking, do not depend on which cells a smaller tree happens to sample
+        else:
+            picks = rng.sample(cells, min(len(cells), ctx.pick(4, 8)))
         for cell in picks:
             root = self.fresh()
             of = observe(root, self.size, self.log, self.focus)
@@ -747,6 +750,8 @@ def subcases(recipe, size, focus=True):
 class Quiet:
     """a ctx stand-in for shrinking runs: counts nothing, same rng derivation"""
 
+    shrinking = True
+
     def __init__(self, ctx):
         self._ctx = ctx
         self.tier = ctx.tier
@@ -924,11 +929,26 @@ def _spy(mode="flow", **kw):
 SEEDS = [
     ({"k": "Filler", "c": _spy(), "valign": "top", "height": "pack"}, [5, 10]),
     ({"k": "Filler", "c": _spy("box"), "valign": "bottom", "height": 3, "top": 1}, [10, 6]),
+    ({"k": "Filler", "c": _spy(rows=3), "valign": "top", "height": "pack", "bottom": 3}, [2]),
+    ({"k": "Filler", "c": {"k": "Edit", "cap": 0, "len": 3, "pos": 0, "wrap": "any"}, "valign": "top", "height": "pack", "bottom": 3}, [2]),
+    ({"k": "Filler", "c": {"k": "Edit", "cap": 0, "len": 3, "pos": 0, "wrap": "any"}, "valign": "top", "height": "pack"}, [5, 10]),
     ({"k": "Pile", "items": [[["pack"], _spy()], [["pack"], _spy(acc="checker")], [["given", 2], _spy("box")]]}, [7]),
     ({"k": "Columns", "items": [[["weight", 1], _spy()], [["given", 3], _spy(rows=3)], [["pack"], _spy("fixed")]], "div": 1}, [14]),
     ({"k": "Frame", "body": _spy("box"), "header": _spy(), "footer": _spy(rows=1), "fp": "footer"}, [6, 8]),
     ({"k": "Padding", "c": _spy(), "align": "center", "width": 4, "left": 1}, [9]),
     ({"k": "Overlay", "top": _spy(), "bottom": _spy("box"), "align": "center", "width": 4, "valign": "middle", "height": "pack"}, [10, 6]),
+    (
+        {
+            "k": "Overlay",
+            "top": {"k": "Padding", "c": {"k": "GridFlow", "cells": [{"k": "Button", "len": 3}, _spy(rows=1)], "cw": 7, "hs": 2, "vs": 1, "align": "left"}, "width": "pack"},
+            "bottom": _spy("box"),
+            "align": "left",
+            "width": 10,
+            "valign": "middle",
+            "height": "pack",
+        },
+        [12, 7],
+    ),
     ({"k": "BoxAdapter", "c": _spy("box"), "h": 3}, [5]),
     ({"k": "LineBox", "c": _spy()}, [6]),
     ({"k": "GridFlow", "cells": [_spy(), _spy(), _spy()], "cw": 3, "hs": 1, "vs": 1, "align": "center"}, [8]),
